@@ -66,6 +66,14 @@ class Views:
             for s in c.get('free', []):
                 self._add(s, c['name'], bool(ref), None, None)
 
+        if world.get('currencies'):
+            from . import iso4217
+            table, _ = iso4217.load()
+            for code in world['currencies']:
+                self._add(code, 'Money', False, None, Fraction(1, 10 ** table[code][1]))
+        for c in world.get('user_currencies', []):
+            self._add(c['sym'], 'Money', False, None, Fraction(c['fraction']))
+
     def _add(self, sym, cls, has_ref, scale, quantum):
         assert sym not in self.units, sym
         cid = self.cls_ids.setdefault(cls, len(self.cls_ids))
@@ -129,6 +137,18 @@ def instantiate(world):
                 units[o.symbol] = o
             else:
                 classes[name] = o
+    if world.get('currencies') or world.get('user_currencies'):
+        from quantity.money import Money
+        classes['Money'] = Money
+        for code in world.get('currencies', []):
+            units[code] = Money.register_currency(code)
+        for c in world.get('user_currencies', []):
+            kw = {}
+            if c.get('minor') is not None:
+                kw['minor_unit'] = c['minor']
+            if c.get('given_fraction'):
+                kw['smallest_fraction'] = number(('dec', c['fraction']))
+            units[c['sym']] = Money.new_unit(c['sym'], c['sym'] + '-name', **kw)
     meta = type(Quantity)
     for c in world.get('classes', []):
         kw = {}
